@@ -113,7 +113,7 @@ def data_fn(draw, prog, t, opts):
 
 @st.composite
 def strategy_(draw, tier):
-    cfg = {"max_depth": 3 if tier == "quick" else 4, "generics": True, "std": True, "std_multi": True, "float_mult_of": True, "leaf_validators": True}
+    cfg = {"max_depth": 3 if tier == "quick" else 4, "generics": True, "std": True, "std_multi": True, "float_mult_of": True, "leaf_validators": True, "class_validators": True}
     case = draw(tdcase.td_cases(cfg, n_data=(4, 10), data_fn=data_fn))
     case["opts"]["coerce"] = pick(draw, [False, False, True, True, "weird", "unhashable"])
     case["opts"]["no_copy"] = draw(st.booleans())
